@@ -875,7 +875,14 @@ func (in *instr) walk(n ast.Node, fn string) {
 			if sel, ok := t.Fun.(*ast.SelectorExpr); ok && len(t.Args) == 1 {
 				if id, ok := sel.X.(*ast.Ident); ok && id.Name == "sync" && (sel.Sel.Name == "OnceValue" || sel.Sel.Name == "OnceValues" || sel.Sel.Name == "OnceFunc") {
 					if fl, ok := t.Args[0].(*ast.FuncLit); ok {
-						in.insert(fl.Body.Lbrace+1, fmt.Sprintf("simrt.LazyInit(%q); ", in.p.imp+"."+fn+" (sync."+sel.Sel.Name+")"))
+						// only a once-function CREATED during package initialisation is
+						// package state; one created inside a call dies with it. The
+						// moment of creation is captured by wrapping the literal:
+						//   func(born bool) T { return func… { LazyInit(name, born); … } }(simrt.Born())
+						typ := string(in.src[in.tf.Offset(fl.Type.Pos()):in.tf.Offset(fl.Type.End())])
+						in.insert(fl.Pos(), "func(born__ bool) "+typ+" { return ")
+						in.insert(fl.Body.Lbrace+1, fmt.Sprintf("simrt.LazyInit(%q, born__); ", in.p.imp+"."+fn+" (sync."+sel.Sel.Name+")"))
+						in.insert(fl.End(), " }(simrt.Born())")
 					}
 				}
 			}
@@ -1060,11 +1067,14 @@ var lazies []string
 // LazyInit is called at the start of a function passed to sync.OnceValue,
 // sync.OnceValues or sync.OnceFunc. Running after package initialisation means
 // that process-lifetime state is being created on first use.
-func LazyInit(name string) {
-	if sealed {
+func LazyInit(name string, bornDuringInit bool) {
+	if sealed && bornDuringInit {
 		lazies = append(lazies, name)
 	}
 }
+
+// Born reports whether the packages of the module are still being initialised.
+func Born() bool { return !sealed }
 
 // Lazies lists the lazy initialisers that have run since Globals was taken.
 func Lazies() []string { return lazies }
